@@ -371,6 +371,9 @@ Definition TransactionMetadatumLabels := SArrOf 0 U64.
 Definition BigNum := U64.
 Definition VersionedBlock (d : nat) := arr [U32; BlockPraos d].
 
+(* a FixedTransaction is a transaction on the wire (its body / witness-set / auxiliary-data slices are kept verbatim: C04) *)
+Definition FixedTransaction (d : nat) := Transaction d.
+
 Definition ledger_schemas_more (d : nat) : list schema := [
   BlockPraos d; StakeRegistration; StakeDeregistration; StakeDelegation; PoolParams; PoolRegistration; PoolRetirement;
   GenesisKeyDelegation; MoveInstantaneousRewardsCert; VoteDelegation; StakeAndVoteDelegation;
@@ -382,4 +385,4 @@ Definition ledger_schemas_more (d : nat) : list schema := [
   BigInt; Redeemer d; RedeemerTag; Language; CostModel; NetworkId; Vkey; AssetNameS; PlutusScriptBytes;
   MIRToStakeCredentials; TransactionBodies d; TransactionWitnessSets d; TransactionUnspentOutput d;
   ScriptPubkey; ScriptAll d; ScriptAny d; ScriptNOfK d; TimelockStart; TimelockExpiry; AssetNames; GenesisHashes;
-  ScriptHashes; RewardAddresses; TransactionMetadatumLabels; BigNum; VersionedBlock d].
+  ScriptHashes; RewardAddresses; TransactionMetadatumLabels; BigNum; VersionedBlock d; FixedTransaction d].
